@@ -179,7 +179,8 @@ func cmdCheck(args []string) int {
 		}
 	}
 	tLoad := time.Now()
-	cx, err := LoadProgram(*repo, patterns, parseOverlay(*ov))
+	extraOverlay = parseOverlay(*ov)
+	cx, err := LoadProgram(*repo, patterns, extraOverlay)
 	loadS := time.Since(tLoad).Seconds()
 	var viols []violation
 	replayDir := filepath.Join(verifRoot, "replays", *prop)
